@@ -2,10 +2,10 @@ package lib
 
 import (
 	"fmt"
-	"regexp"
 	"math/big"
 	"math/rand"
 	"reflect"
+	"regexp"
 	"sort"
 	"strings"
 
@@ -18,10 +18,10 @@ type GenOpts struct {
 	Density         float64 // probability that an optional node is populated
 	MaxEntries      int     // entries per list
 	MaxDepth        int
-	EmptyLeafLists  bool // representation class: non-nil empty leaf-lists
-	Unkeyed         bool // generate keyless lists
-	EmptyContainers bool // representation class: non-nil containers without content
-	Hostile         bool // hostile characters in strings and string keys
+	EmptyLeafLists  bool   // representation class: non-nil empty leaf-lists
+	Unkeyed         bool   // generate keyless lists
+	EmptyContainers bool   // representation class: non-nil containers without content
+	Hostile         bool   // hostile characters in strings and string keys
 	Leafrefs        string // "satisfy" (default), "skip"
 	Valid           bool   // honour min/max-elements, unique config leaf-lists, non-empty mandatory lists
 	NoOrdered       bool
